@@ -1,8 +1,8 @@
-\* 4 separators per node, 16 keys: every two-level tree (three ways to split a leaf, borrowing and merging of leaves, root split / collapse);
+\* 4 separators per node, 18 keys: every two-level tree (three ways to split a leaf, borrowing and merging of leaves, root split / collapse);
 \* an inner node splits only from 17 keys on: MC_BTreeNode_o4_18.cfg (thorough tier) and ORDER 2 above
 CONSTANTS
   ORDER = 4
-  NK = 16
+  NK = 18
   KeepHist = FALSE
   GrowLen = 0
   AscSizes = {}
